@@ -152,11 +152,15 @@ func (b *Batch) Delete(key []byte) error {
 	b.mu.Lock()
 	defer b.mu.Unlock()
 
+	if b.committed {
+		return ErrBatchCommitted
+	}
+
 	logRecord := b.findPendingRecord(key)
 
 	// 缓存命中, 直接操作缓存
 	if logRecord != nil {
-		b.cachedDataSize += int64(len(logRecord.Value))
+		b.cachedDataSize -= int64(len(logRecord.Value))
 		logRecord.Type = datafile.LogRecordDeleted
 		logRecord.Value = nil
 		return nil
@@ -186,17 +190,19 @@ func (b *Batch) Delete(key []byte) error {
 }
 
 func (b *Batch) Commit() error {
-	// 提交后允许操作 DB 实例
-	defer b.db.mu.Unlock()
-
 	b.mu.Lock()
 	defer b.mu.Unlock()
 
-	if len(b.staged) == 0 {
-		return nil
-	}
+	// 已提交的批处理不再持有数据库锁, 不允许重复释放
 	if b.committed {
 		return ErrBatchCommitted
+	}
+	b.committed = true
+	// 提交后允许操作 DB 实例
+	defer b.db.mu.Unlock()
+
+	if len(b.staged) == 0 {
+		return nil
 	}
 
 	err := b.flushStaged()
